@@ -160,6 +160,8 @@ class _FnRun:
         self.chain = chain
         self.uses = {}
         self._ret_state = "unset"
+        self.temps = {}
+        self.temps_changed = False
         self.selfname = fn.params[0] if (fn.is_method and fn.params and not fn.is_staticmethod) else None
 
     def use(self, node, need, st):
@@ -387,6 +389,7 @@ class _FnRun:
         st_at = {cfg.ENTRY: self.st_in}
         while changed and rounds < 20:
             changed = False
+            self.temps_changed = False
             rounds += 1
             for n in order:
                 if n == cfg.ENTRY:
@@ -408,6 +411,7 @@ class _FnRun:
                     if OUT.get((n, lab), "unset") != s:
                         OUT[(n, lab)] = s
                         changed = True
+            changed = changed or self.temps_changed
         # returns
         self.uses_final = {}
         for n in cfg.returns():
@@ -450,6 +454,15 @@ class _FnRun:
                 self.ev(value, st)
                 targets = node.targets if isinstance(node, ast.Assign) else [node.target]
                 for t in targets:
+                    if isinstance(t, ast.Name) and t.id != self.var and isinstance(node, (ast.Assign, ast.AnnAssign)) and value is not None:
+                        # a temporary that may hold the tracked value (result variable of an inlined helper):
+                        # the join of everything assigned to it
+                        vs = self._value_state(value, st)
+                        old_t = self.temps.get(t.id, "unset")
+                        new_t = vs if old_t == "unset" else join(old_t, vs)
+                        if new_t != old_t:
+                            self.temps[t.id] = new_t
+                            self.temps_changed = True
                     if isinstance(t, ast.Name) and t.id == self.var:
                         new = self._value_state(value, st)
                     elif any(isinstance(x, ast.Name) and x.id == self.var for x in ast.walk(t)):
@@ -493,6 +506,8 @@ class _FnRun:
                 return (frozenset([("builtin", value.func.id)]), frozenset())
         if self.is_var(value):
             return st
+        if isinstance(value, ast.Name) and value.id in self.temps:
+            return self.temps[value.id]
         # var = helper(var): the helper's returned-value state for this argument state
         if isinstance(value, ast.Call) and any(self.is_var(a) for a in value.args):
             callee, idx = self._resolve(value)
